@@ -146,10 +146,15 @@ def finish(res: Result, *, tier: str, seed: int, t0: float, checker_cmd: str, as
             except OSError:
                 pass
     nviol = 0
-    for name, e in violations:
+    MAX_NATIVE_REPLAYS = int(os.environ.get('VERIF_MAX_REPLAYS', '8'))
+    for vi, (name, e) in enumerate(violations):
         confirmed, path = (None, None)
         try:
-            confirmed, path = replay(name, e)
+            if vi < MAX_NATIVE_REPLAYS:
+                confirmed, path = replay(name, e)
+            else:
+                confirmed, path = None, _write_replay(name, e, note=f'native replay skipped: more than {MAX_NATIVE_REPLAYS} violations in this run '
+                                                                    f'(the first ones were replayed)')
         except Exception as ex:      # replay driver trouble never hides the violation
             confirmed, path = None, _write_replay(name, e, note=f'replay driver error: {ex!r}')
         if path is None:
